@@ -97,8 +97,8 @@ func (schemaCompiler) orConstraint(node ischema.Node) {
 	}
 	if typeConstraint := node.Constraint(constraint.TypeConstraintType); typeConstraint != nil {
 		n--
-		if t := typeConstraint.(*constraint.TypeConstraint).Bytes().String(); t != `"mixed"` {
-			panic(errs.ErrInvalidValueInTheTypeRule.F(t))
+		if t := typeConstraint.(*constraint.TypeConstraint).Bytes(); t.Unquote().String() != "mixed" { // (decoded: "mixed" may be written with a JSON escape)
+			panic(errs.ErrInvalidValueInTheTypeRule.F(t.String()))
 		}
 	}
 	if n != 0 {
@@ -179,8 +179,8 @@ func (schemaCompiler) enumConstraint(node ischema.Node) {
 	}
 	if typeConstraint := node.Constraint(constraint.TypeConstraintType); typeConstraint != nil {
 		n--
-		if t := typeConstraint.(*constraint.TypeConstraint).Bytes().String(); t != `"enum"` {
-			panic(errs.ErrInvalidValueInTheTypeRule.F(t))
+		if t := typeConstraint.(*constraint.TypeConstraint).Bytes(); t.Unquote().String() != "enum" { // (decoded: "enum" may be written with a JSON escape)
+			panic(errs.ErrInvalidValueInTheTypeRule.F(t.String()))
 		}
 	}
 	if n != 0 {
